@@ -80,6 +80,11 @@ pub fn gen(r: &mut Rng) -> Value {
                     }
                 })
                 .collect();
+            // option flags come first (`release -r <handle>`, `json_parse --collection <text>`)
+            let mut args = args;
+            if typed && r.chance(1, 4) {
+                args.insert(0, r.pick(&["-r", "--recursive", "--collection", "-c", "-e", "-d", "--prefix", "--copy"]).to_string());
+            }
             json!({"name": name, "args": args})
         })
         .collect();
